@@ -249,6 +249,59 @@ def job_poly(j, seed):
     return {'obligations': obs, 'candidates': cands, 'paths': 1}
 
 
+def job_poly_units(j, seed):
+    """Coefficient units: a polynomial evaluated with a coefficient whose unit is not a0.unit / x.unit**i (same dimension
+    with another scale, e.g. K/cm for x in m, or another dimension) is either refused (UnitError) or evaluated with the
+    physical value of that coefficient - never with the bare number."""
+    degree, which, kind = j
+    from symex import core as C
+    from symsc.units import UnitError
+    from .symutil import fresh_run, sym_unit, sym_array
+
+    sc, mod = _load()
+    fresh_run()
+    obs, cands = [], []
+    tag = f'polynomial-units[degree={degree}, a{which} in {"a scaled unit of the right dimension" if kind == "scaled" else "a unit of another dimension"}]'
+    case = {'kind': 'polynomial-units', 'degree': degree, 'which': which, 'unit_kind': kind}
+    ux = sym_unit('x', 'm')
+    uy = sym_unit('y', 'counts')
+    x = sym_array('x', 'x', 2, ux, sign=None)
+    units = [uy / ux ** i for i in range(degree + 1)]
+    if kind == 'scaled':
+        units[which] = sym_unit('c', 'counts') / ux ** which  # scale sigma_c instead of sigma_y
+    else:
+        units[which] = sym_unit('c', 's')
+    a = [sc.scalar(C.sym_var(f'a{i}'), unit=units[i]) for i in range(degree + 1)]
+    model = mod.PolynomialModel(degree=degree, prefix='')
+    paths = C.explore(lambda: model(x, **{f'a{i}': a[i] for i in range(degree + 1)}))
+    for k_, p in enumerate(paths):
+        if p.inconclusive:
+            obs.append({'name': f'{tag}:path{k_}', 'status': 'inconclusive', 'detail': p.inconclusive[:200], 't': 0})
+            continue
+        if p.exc is not None:
+            ok = isinstance(p.exc, UnitError)
+            ob = C.prove(f'{tag}:path{k_}: refused with UnitError', C.B.const(ok), pc=p.pc)
+            obs.append(ob_dict(ob))
+            if not ok:
+                cands.append(('C16:polynomial:units', case, f'raises {type(p.exc).__name__} instead of UnitError'))
+            continue
+        y = p.value
+        good = C.B.const(kind == 'scaled' and y.unit.dim == uy.dim)
+        if kind == 'scaled' and y.unit.dim == uy.dim:
+            sx = C.R(ux.scale_rat())
+            for k in range(2):
+                with C.oracle():
+                    exp = C.R.lift(0)
+                    for i in range(degree + 1):
+                        exp = exp + a[i].value * C.R(units[i].scale_rat()) * (x.values[k] * sx) ** i
+                good = good & (y.values[k] * C.R(y.unit.scale_rat()) == exp)
+        ob = C.prove(f'{tag}:path{k_}: a returned value is the physical sum a_i x^i', good, pc=p.pc)
+        obs.append(ob_dict(ob))
+        if ob.status != 'discharged':
+            cands.append(('C16:polynomial:units', case, 'a coefficient in another unit is used as a bare number'))
+    return {'obligations': obs, 'candidates': cands, 'paths': len(paths)}
+
+
 def job_composite(j, seed):
     from symex import core as C
     from symsc import variable as V
@@ -299,6 +352,7 @@ def run(chk):
     run_jobs(chk, job_peak, [(k, p) for k in ('gaussian', 'lorentzian', 'pseudo_voigt') for p in pref])
     degs = [1, 2, 3, 6] if chk.tier == 'quick' else [1, 2, 3, 4, 5, 6]
     run_jobs(chk, job_poly, [(d, p) for d in degs for p in (['', 'a'] if chk.tier == 'quick' else pref)])
+    run_jobs(chk, job_poly_units, [(d, w, k) for d in ((1, 2) if chk.tier == 'quick' else (1, 2, 3, 6)) for w in range(1, d + 1) for k in ('scaled', 'other')])
     run_jobs(chk, job_composite, [0])
     chk.bounds = {'parameters': 'amplitude, location any real; scale in [1e-6, 1e6]; fraction in [0,1]; symbolic unit scales for x and y',
                   'x': 'loc +/- d (d arbitrary), loc, loc +/- FWHM/2', 'degrees': degs, 'prefixes': pref}
@@ -316,6 +370,30 @@ def replay_real(case):
     bad = []
     kind = case['kind']
     pre = case.get('prefix', '')
+    if kind == 'polynomial-units':
+        deg, which = case['degree'], case['which']
+        m = M.PolynomialModel(degree=deg, prefix='')
+        xs = np.array([0.5, 2.0, -3.0])
+        x = sc.array(dims=['x'], values=xs, unit='m')
+        coef = rng.uniform(0.5, 2.0, size=deg + 1)
+        for bad_unit, factor in (((f'K/cm^{which}' if which > 1 else 'K/cm'), 100.0 ** which), ('s', None)):
+            P = {f'a{i}': sc.scalar(float(coef[i]), unit=('K' if i == 0 else (f'K/m^{i}' if i > 1 else 'K/m'))) for i in range(deg + 1)}
+            P[f'a{which}'] = sc.scalar(float(coef[which]), unit=bad_unit)
+            try:
+                y = m(x, **P)
+            except sc.UnitError:
+                continue
+            except Exception as e:  # noqa: BLE001
+                bad.append(f'degree {deg}, a{which} in {bad_unit}: raises {type(e).__name__} instead of UnitError')
+                continue
+            if factor is None:
+                bad.append(f'degree {deg}: a{which} given in {bad_unit} is accepted, result labelled {y.unit}')
+                continue
+            exp = sum((coef[i] * (factor if i == which else 1.0)) * xs ** i for i in range(deg + 1))
+            got = y.to(unit='K').values
+            if not np.allclose(got, exp, rtol=1e-12):
+                bad.append(f'degree {deg}: a{which} = {coef[which]!r} {bad_unit} with x in m is used as {coef[which]!r} K/m^{which}: result {got.tolist()}, physical value {exp.tolist()}')
+        return {'reproduced': bool(bad), 'detail': '; '.join(bad[:2])[:500]}
     if kind in ('gaussian', 'lorentzian', 'pseudo_voigt'):
         cls = {'gaussian': M.GaussianModel, 'lorentzian': M.LorentzianModel, 'pseudo_voigt': M.PseudoVoigtModel}[kind]
         m = cls(prefix=pre)
